@@ -381,6 +381,13 @@ def getslice(I, ctx, obj, lo, hi, node):
         return I.split(ctx, lo, lambda sub, a: getslice(I, sub, obj, a, hi, node))
     if isinstance(hi, Choice):
         return I.split(ctx, hi, lambda sub, a: getslice(I, sub, obj, lo, a, node))
+    if isinstance(obj, Choice):
+        def one(sub, a):
+            if a is None:
+                I.raise_if(sub, True, TypeErr, 'type:slice-of-None@' + I.where(node))
+                return None
+            return getslice(I, sub, a, lo, hi, node)
+        return I.split(ctx, obj, one)
     heap = ctx.heap
     seq = obj
     is_ref = isinstance(obj, (Ref, Snapshot))
